@@ -138,6 +138,15 @@ CHECKS = {
         "Bound: layer L 2 tokens <=3 (quick) / 5 (thorough) code points x 10 layouts; 50 programs x all gaps x 17 layouts (thorough: two gaps at once). No documentation comments in the programs (C11). D9/D10 (comment at the end of a #pragma / #include line) are known findings.",
         "DESIGN.md 3/C09",
     ),
+    "C06": (
+        "model_checking",
+        "z3 on the E-RX encoding of the built lexer (totality: rule / literal / t_error at every position); CrossHair (z3) on every lexer error rule with symbolic text and line; exhaustive CrossHair exploration of all token sequences over a reduced alphabet computed from parser.py's AST, of rule-breaking constructs x block contexts and of truncations, through parse_string",
+        "Lexer: unsat for all code-point strings inside the bound that Lexer.token could reach PLY's internal error branch or make no progress; error rules confirmed over all paths to raise LexError with the token's location. "
+        "Tokens: EVERY token sequence inside the bound over one spelling per class of token types parser.py can tell apart (plus compared values and lexer-error spellings) returns or raises CxxParseError with prefix '<file>:<existing line>: ' and a cause - so the except block itself never raises. "
+        "Rejection: 37 rule-breaking constructs in 7 block contexts; truncation of 50 programs at every token boundary.",
+        "Bound: lexer n<=5 (quick) / 8 (thorough) code points; sequences <=2 tokens over the ~100-spelling reduced alphabet and <=3 over a 33-spelling core (thorough 3 / 4). Tokens are rendered blank/newline separated. BaseException and resource exhaustion are outside.",
+        "DESIGN.md 3/C06",
+    ),
 }
 
 NOT_YET = "no check landed yet in this build (planned engine and bounds: DESIGN.md section 3); not claimed until the check runs green"
